@@ -1,0 +1,12 @@
+//go:build verif
+
+// Contracts for package length, read by the VC generator in /verif (govc). Comments only.
+
+package length
+
+//@ func Length(g, df)
+//@   requires df != nil
+//@ func lineStringLength(ls, df)
+//@   requires df != nil
+//@ func polygonLength(p, df)
+//@   requires df != nil
